@@ -29,7 +29,39 @@ def factory_search(ctx, out):
     return True
 
 
+def buildtime_search(ctx, out):
+    """C12.buildtime_rows no longer holds: name the rows and look for a run of kind=lateuse that shows the difference"""
+    import json, os
+    try:
+        rows = [r for r in json.load(open(os.path.join(R.LEAN, 'RoGen', 'buildtime.json'))) if (r['Fn'], r['What']) not in KNOWN_BUILD_ROWS]
+    except (OSError, ValueError):
+        return False
+    if not rows:
+        return False
+    head = ('theorem Ro.C12.buildtime_rows no longer holds (RoGen.BuildTime.rows)\n' +
+            '\n'.join(f"row {r['Fn']}: `{r['What']}` in the {r['Scope']} scope ({r['File']}:{r['Line']}) — evaluated once per operator value / observable value, shared by all its subscriptions" for r in rows) + '\n')
+    bad = getattr(ctx, 'lateuse_bad', [])
+    hit = [x for x in bad if any(r['Fn'].startswith(re.search(r'op=(\S+)', x[0]).group(1)) for r in rows)] or bad
+    if hit:
+        c, g, l = hit[0]
+        ctx.violation('C12: an operator reads ambient state / creates a shared object outside its subscribe function (' + ', '.join(sorted({r['Fn'] + ':' + r['What'] for r in rows})) + ') and a pipeline subscribed late behaves differently',
+                      head + f'# concrete run: build, let time pass, subscribe (twice)\n{c}\n# implementation: {g}\n# model: {l}\n')
+    else:
+        ctx.violation('C12: an operator reads ambient state / creates a shared object outside its subscribe function: ' + ', '.join(sorted({r['Fn'] + ':' + r['What'] for r in rows})), head, no_input=True)
+    return True
+
+
+KNOWN_BUILD_ROWS = {('ShareWithConfig', 'var sync.Mutex')}    # mirror of Ro.knownBuildRows (diagnosis only)
+
+
 def check(ctx):
+    # build, let time pass, subscribe (twice): kind=lateuse
+    ctx.lateuse_bad = []
+    lrows = R.run_kind(ctx, 'lateuse', shards=6)
+    for c, g, l in lrows:
+        if R.parse_res(g).get('ok') != '1' and not flag(R.parse_res(g)):
+            ctx.lateuse_bad.append((c, g, l))
+    R.compare(ctx, lrows, proj_all, 'C12 a pipeline subscribed long after it was built (and a second time later) behaves like a fresh one', nontrivial=lambda c, gd: True, recheck=1)
     rows = run_reuse(ctx)
     R.compare(ctx, rows, proj_all, 'C12 re-subscription / re-application of one operator value',
               nontrivial=lambda c, gd: 'N' in c and gd.get('t1', '-') != '-')
@@ -38,4 +70,4 @@ def check(ctx):
     R.compare(ctx, rows, lambda d: (flag(d), d.get('same'), d.get('built')), 'C12 operator values capturing other observables, applied to several sources', nontrivial=lambda c, gd: True)
     return dict(rule='every catalogue operator x parameters x variants x callbacks x scripts: operator value applied to 2 cold sources, subscribed in reverse order, '
                      '3 sequential + 4 concurrent subscriptions, probe subscription counters; non-trivial = the pipeline delivered something',
-                search=combine_search(table_search('C12'), factory_search))
+                search=combine_search(table_search('C12'), factory_search, buildtime_search))
